@@ -12,7 +12,9 @@
 //!                   (recs=<rec>/<rec>.. pre=<hex> suf=<hex> | hex=<bytes> | file=<path>)
 //!                   chunks=<spec>;<spec>..  [post=<k>] [expect=<n>]
 //!   rec   = <style>~<idhex>~<deschex or ->~<col>;<col>..      col = <symbol code>:<tok>,<tok>..
-//!   style = <crlf 0/1>.<hsep>.<lead>.<sep>.<sym>.<tail>.<post>.<gap>   (blank strings: s = ' ', t = TAB)
+//!   style = <crlf 0/1>.<hsep>.<lead>.<sep>.<sym>.<tail>.<post>.<gap>[.<trail 0/1>]   (blank strings: s = ' ', t = TAB)
+//!   `layout=g` on the line: general layout (IoPrintG.v): a count token may be `<blanks>^<digits>` (its own blanks), trail = 1
+//!   prints hsep after an identifier without description
 //!   spec  = cap:<c> (BufReader::with_capacity(c, Cursor)) | cyc:<a>,<b>,.. (custom BufRead whose
 //!           successive fill_buf slices have these sizes, cyclically) | all (Cursor)
 //!           | ev:<e>,<e>,.. (custom BufRead following a script: <n> = a data slice of n bytes,
@@ -157,6 +159,10 @@ struct Style {
     tail: String,
     post: String,
     gap: usize,
+    /// general layout only: a record without description prints `hsep` as trailing blanks after the identifier
+    trail: bool,
+    /// not encoded: the record was generated with per-count blanks (the line gets `layout=g`)
+    general: bool,
 }
 
 #[derive(Clone, Debug)]
@@ -187,7 +193,7 @@ fn unhex(s: &str) -> Vec<u8> {
 impl Style {
     fn enc(&self) -> String {
         format!(
-            "{}.{}.{}.{}.{}.{}.{}.{}",
+            "{}.{}.{}.{}.{}.{}.{}.{}.{}",
             self.crlf as u8,
             blanks_enc(&self.hsep),
             blanks_enc(&self.lead),
@@ -195,7 +201,8 @@ impl Style {
             blanks_enc(&self.sym),
             blanks_enc(&self.tail),
             blanks_enc(&self.post),
-            self.gap
+            self.gap,
+            self.trail as u8
         )
     }
     fn dec(s: &str) -> Style {
@@ -209,6 +216,8 @@ impl Style {
             tail: blanks_dec(p[5]),
             post: blanks_dec(p[6]),
             gap: p[7].parse().unwrap(),
+            trail: p.get(8).map_or(false, |x| *x == "1"),
+            general: false,
         }
     }
     fn eol(&self) -> &'static str {
@@ -220,8 +229,25 @@ impl Style {
     }
 }
 
+/// A token may carry its own leading blanks (general layout: right-aligned columns): `ss^123`.
+fn tok_enc(t: &str) -> String {
+    let k = t.chars().take_while(|c| *c == ' ' || *c == '\t').count();
+    if k == 0 {
+        t.to_string()
+    } else {
+        format!("{}^{}", blanks_enc(&t[..k]), &t[k..])
+    }
+}
+fn tok_dec(t: &str) -> String {
+    match t.split_once('^') {
+        Some((b, d)) => format!("{}{}", blanks_dec(b), d),
+        None => t.to_string(),
+    }
+}
+
 fn rec_enc(y: &Style, r: &Src) -> String {
-    let cols: Vec<String> = r.cols.iter().map(|(s, t)| format!("{}:{}", s, t.join(","))).collect();
+    let cols: Vec<String> =
+        r.cols.iter().map(|(s, t)| format!("{}:{}", s, t.iter().map(|x| tok_enc(x)).collect::<Vec<_>>().join(","))).collect();
     format!(
         "{}~{}~{}~{}",
         y.enc(),
@@ -239,7 +265,7 @@ fn rec_dec(s: &str) -> (Style, Src) {
         p[3].split(';')
             .map(|c| {
                 let (s, t) = c.split_once(':').unwrap();
-                let toks = if t.is_empty() { vec![] } else { t.split(',').map(|x| x.to_string()).collect() };
+                let toks = if t.is_empty() { vec![] } else { t.split(',').map(|x| tok_dec(x)).collect() };
                 (s.parse::<u8>().unwrap(), toks)
             })
             .collect()
@@ -275,6 +301,8 @@ fn print_rec(fmt: &str, y: &Style, r: &Src, out: &mut Vec<u8>) {
     if let Some(d) = &r.desc {
         out.extend_from_slice(y.hsep.as_bytes());
         out.extend_from_slice(d);
+    } else if y.trail {
+        out.extend_from_slice(y.hsep.as_bytes());
     }
     out.extend_from_slice(eol);
     for (s, toks) in &r.cols {
@@ -614,6 +642,8 @@ fn gen_style(rng: &mut Rng) -> Style {
         tail: if plain { " ".into() } else { blanks(rng, 0, 2) },
         post: if plain { "".into() } else { blanks(rng, 0, 2) },
         gap: if rng.chance(1, 2) { 0 } else { rng.range(0, 3) as usize },
+        trail: false,
+        general: false,
     }
 }
 
@@ -768,6 +798,32 @@ fn gen_record(rng: &mut Rng, fmt: &str, abc: &str, maxw: usize) -> (Style, Src) 
     };
     let id = gen_id(rng, fmt == "uniprobe");
     let desc = if fmt == "uniprobe" { None } else { gen_desc(rng) };
+    let (mut y, mut cols) = (y, cols);
+    if fmt != "uniprobe" && rng.chance(2, 5) {
+        // general layout (IoPrintG.v): every count carries its own blanks -- right-aligned columns as in the
+        // JASPAR database files, or ragged blanks; the record-wide lead / separator strings are then empty
+        let cols2: &mut Vec<(u8, Vec<String>)> = &mut cols;
+        let maxlen = cols2.iter().flat_map(|c| c.1.iter().map(|t| t.len())).max().unwrap_or(1);
+        let pad = rng.range(1, 3) as usize;
+        let ragged = rng.chance(1, 3);
+        for c in cols2.iter_mut() {
+            for (i, t) in c.1.iter_mut().enumerate() {
+                let k = if ragged {
+                    (if i == 0 { rng.range(0, 3) } else { rng.range(1, 5) }) as usize
+                } else {
+                    maxlen + pad - t.len()
+                };
+                let b: String = (0..k).map(|_| if ragged && rng.chance(1, 4) { '\t' } else { ' ' }).collect();
+                *t = format!("{}{}", b, t);
+            }
+        }
+        y.lead = "".into();
+        y.sep = "".into();
+        y.general = true;
+        if desc.is_none() && rng.chance(1, 2) {
+            y.trail = true; // ">ID  \n": blanks after an identifier without description
+        }
+    }
     (y, Src { id, desc, cols })
 }
 
@@ -841,10 +897,11 @@ fn gen_c14(seed: u64, n: usize, tier: &str) {
         }
         let enc: Vec<String> = recs.iter().map(|(y, r)| rec_enc(y, r)).collect();
         println!(
-            "g{} mode=c14 fmt={} abc={} post=2 pre={} suf={} chunks={} recs={}",
+            "g{} mode=c14 fmt={} abc={}{} post=2 pre={} suf={} chunks={} recs={}",
             i,
             fmt,
             abc,
+            if recs.iter().any(|(y, _)| y.general) { " layout=g" } else { "" },
             hex(&pre),
             hex(&suf),
             chunks.join(";"),
